@@ -289,8 +289,8 @@ def check_reader(ctx, n, exhaustive_chunking=False):
         e = "list_eqb str_eqb (fst (receive_all %d%%nat %s)) %s" % (len(bodies) + 1, cbytes(data), clist(bodies, cbytes))
         if k < n and len(chunks) <= 8:
             # the chunked reader program of C16/Chunks.v on the very chunks the implementation gets
-            e += " && (match fst (run_chunks (receive_prog %d%%nat) %s) with PMsg b => str_eqb b %s | _ => false end)" % (
-                len(data) + 1, clist(chunks, cbytes), cbytes(bodies[0]))
+            e += " && (match receive_all_chunks %d%%nat %s with (l, PEof) => list_eqb str_eqb l %s | _ => false end)" % (
+                len(bodies) + 1, clist(chunks, cbytes), clist(bodies, cbytes))
             ctx.extra["chunked_model_runs"] = ctx.extra.get("chunked_model_runs", 0) + 1
         exprs.append(e)
     # the model is evaluated once per distinct stream
@@ -319,7 +319,7 @@ def check_reader(ctx, n, exhaustive_chunking=False):
                                                             "layouts": layouts},
                         "implementation": {"messages": got, "status": status}, "oracle": msgs})
         elif k in badset:
-            ctx.report("C16:reader-model-mismatch", "_receive differs from C16.Model.receive_all / C16.Chunks.receive_prog",
+            ctx.report("C16:reader-model-mismatch", "_receive differs from C16.Model.receive_all / C16.Chunks.receive_all_chunks",
                        {"kind": "broken-correspondence", "input": {"stream_latin1": data.decode("latin-1")},
                         "implementation": got, "correspondence": "FV.C16.Model.receive_all vs JSONRPC2Connection._receive"},
                        found_input=False)
